@@ -57,6 +57,10 @@ pub struct HookTable {
     pub sleep: fn(duration: Duration) -> bool,
     /// region ledger: `event` is 0 = new, 1 = freed, 2 = check (used)
     pub region: fn(event: u8, id: u64, what: &'static str),
+    /// blocking (`std::thread::sleep()`) counterpart of `sleep`: returns `true` if the sleep was simulated
+    pub thread_sleep: fn(duration: Duration) -> bool,
+    /// starting value for the counter of newly built incremental-average metrics
+    pub metric_origin: fn() -> u32,
 }
 
 static HOOKS: atomic::AtomicPtr<HookTable> = atomic::AtomicPtr::new(std::ptr::null_mut());
@@ -127,6 +131,15 @@ pub fn sequence_origin() -> u32 {
     }
 }
 
+/// The value the counter of an incremental-average metric under construction should start from (0 unless a simulator says otherwise)
+#[inline(always)]
+pub fn metric_origin() -> u32 {
+    match hooks() {
+        Some(hooks) => (hooks.metric_origin)(),
+        None => 0,
+    }
+}
+
 /// `tokio::time::sleep()` seam
 pub async fn sleep(duration: Duration) {
     if let Some(hooks) = hooks() {
@@ -140,7 +153,7 @@ pub async fn sleep(duration: Duration) {
 /// `std::thread::sleep()` seam
 pub fn thread_sleep(duration: Duration) {
     if let Some(hooks) = hooks() {
-        if (hooks.sleep)(duration) {
+        if (hooks.thread_sleep)(duration) {
             return;
         }
     }
